@@ -55,11 +55,13 @@ func perturbFamily(nmin, nmax int, basePatterns, pertPatterns []int) func(emit f
 func plan(tier string) []family {
 	all := []int{0, 1, 2, 3}
 	staging := family{Name: "staging areas with several authors committed by one Entity.Commit: author patterns over {A,B} of length <= 4 (A,B,A / A,B,A,B / A,A,B,A ...), as first commit, as a later commit, and two in a row; read-back order against append order", Mode: "S", Batch: 16, Raw: StagingCases}
+	octopus := family{Name: "octopus joins: commits with 3 and 4 parents (and a join of joins), with 0-2 operations in the join, tied / distinct / far children, consistent / contradicting / far join clocks", Mode: "G", Batch: 96, Gen: OctopusFamily}
 	spell := family{Name: "clock spelling alphabet: every spelling of an edit-clock / create-clock / version entry on one of two concurrent commits, on a parent or a child, on the root", Mode: "G", Batch: 96, Gen: SpellingFamily}
 	if tier != "thorough" {
 		return []family{
 			staging,
 			spell,
+			octopus,
 			{Name: "valid histories and single perturbations, N<=4 commits, all content patterns", Mode: "G", Batch: 96, Gen: perturbFamily(1, 4, all, all)},
 			{Name: "full cross product of clock options, N<=4 commits, all content patterns (mockRepo)", Mode: "M", Batch: 512, Gen: fullFamily(4, all)},
 			{Name: "valid histories and single perturbations, N=5 commits, all content patterns (mockRepo)", Mode: "M", Batch: 512, Gen: perturbFamily(5, 5, all, all)},
@@ -69,6 +71,7 @@ func plan(tier string) []family {
 	return []family{
 		staging,
 		spell,
+		octopus,
 		{Name: "valid histories and single perturbations, N<=5 commits, all content patterns", Mode: "G", Batch: 96, Gen: perturbFamily(1, 5, all, all)},
 		{Name: "full cross product of clock options, N<=4 commits, content patterns 2 and 3 (mockRepo)", Mode: "M", Batch: 512, Gen: fullFamily(4, []int{2, 3})},
 		{Name: "valid histories (content patterns 0, 1) and single perturbations (pattern 1), N=6 commits (mockRepo)", Mode: "M", Batch: 512, Gen: perturbFamily(6, 6, []int{0, 1}, []int{1})},
